@@ -17,6 +17,13 @@ from . import common
 
 F = "antismash/common/secmet/features/candidate_cluster/formation.py"
 GENES = [0, 1, 2]
+NAMES = ["pd", "pa", "pc", "ph", "pb", "pg", "pe", "pf", "pk", "pi", "pj", "pl"]   # product names, not in index order
+
+
+def name_products(ps: List[Dict[str, Any]], rng: Optional[random.Random] = None) -> List[Dict[str, Any]]:
+    """distinct product names, unrelated to the position in the input"""
+    names = rng.sample(NAMES, len(ps)) if rng is not None else NAMES[:len(ps)]
+    return [dict(p, product=name) for p, name in zip(ps, names)]
 
 
 def _factorial(n: int) -> int:
@@ -54,7 +61,7 @@ def proto(core: Dict[str, Any], loc: Dict[str, Any], defs: List[int]) -> Dict[st
 class C05(Property):
     ID = "C05"
     SHAPE = [(F, q) for q in (
-        "create_candidates_from_protoclusters", "_merge_sets", "_find_hybrids", "_find_interleaved_candidates",
+        "create_candidates_from_protoclusters", "_sorted_protoclusters", "_merge_sets", "_find_hybrids", "_find_interleaved_candidates",
         "_find_cross_origin_interleaved", "_find_interleaved", "_find_neighbouring_candidates",
         "_find_neighbouring_protoclusters", "_find_neighbouring")] + [
         ("antismash/common/secmet/features/candidate_cluster/structures.py", "CandidateCluster.__init__"),
@@ -83,12 +90,12 @@ class C05(Property):
             "long candidates sorting far from what they reach, equal-coordinate groups of one kind, origin-spanning "
             "hybrids); exhaustive small scope in the thorough/deep tier (record length 12, cores on a 2-grid, "
             "neighbourhoods {0,2,6}, genes subsets of {x,y}: every multiset of <= 3 protoclusters, sampled 4); every case "
-            "is re-run with the protoclusters supplied in every order (<= 4) or in seeded shuffles; non-trivial = at least "
+            "is re-run with the protoclusters supplied in every order (<= 4) or in seeded shuffles and must give the identical ordered result; non-trivial = at least "
             "one candidate of a kind other than single; distinct by canonical input")
-    TRUSTED = ["Python set/dict semantics (identity sets of protoclusters); the iteration order of a set is arbitrary, "
-               "the model uses insertion order and the observable (a set of candidates) is compared as a set",
-               "`sorted()` with CDSCollection.__lt__ is modelled as a stable insertion sort (equal for a strict weak order; "
-               "the order is one on well-formed areas except a whole-record extent against an origin-spanning one)",
+    TRUSTED = ["Python set/dict semantics (identity sets of protoclusters); the iteration order of a set is arbitrary, the model "
+               "uses insertion order; after fix D507 no observable depends on it (candidate order and member order are compared exactly)",
+               "`sorted()` with CDSCollection.__lt__ is modelled as CPython's list.sort for fewer than 64 elements (count_run + "
+               "binary insertion); longer lists are outside the modelled domain",
                "connect_locations on a ring is taken from the C04 model (proved on a line, small-scope correspondence on a ring)",
                "all protocluster locations are forward-strand areas (one part, or two parts meeting at the origin)",
                "definition CDSs are represented by gene numbers (the code only intersects the sets)"]
@@ -134,18 +141,20 @@ class C05(Property):
         ps: List[Dict[str, Any]] = []
         for _ in range(n):
             ps.append(self.rand_proto(rng, length, circular, ps))
-        return {"wrap": length if circular else 0, "len": length, "ps": ps}
+        return {"wrap": length if circular else 0, "len": length, "ps": name_products(ps, rng)}
 
     def directed_case(self, rng: random.Random) -> Dict[str, Any]:
         """layouts aimed at the repaired defects (D16, D19, D501-D506)"""
         kind = rng.choice(["chain", "single-chain", "window", "same-kind", "cross-hybrid", "cross-single", "cross-span",
-                           "nested-cands", "nested-cands", "coords-nonmember"])
+                           "nested-cands", "nested-cands", "coords-nonmember", "twin-singles"])
         length = rng.choice([100, 200, 1000])
         circular = kind.startswith("cross") or rng.random() < 0.3
         u = length // 100
         ps: List[Dict[str, Any]] = []
 
         def add(a: int, b: int, nb: int, defs: List[int]) -> None:
+            a = max(0, min(a, 98))          # keep the core inside the record
+            b = max(a + 1, min(b, 100))
             ps.append(proto(simple(a * u, b * u), area((a - nb) * u, (b + nb) * u, length, circular), defs))
 
         def add_cross(a: int, b: int, nb: int, defs: List[int]) -> None:
@@ -250,6 +259,20 @@ class C05(Property):
             for _ in range(rng.choice([0, 1, 2])):
                 a = rng.randrange(5, 90)
                 add(a, a + rng.choice([1, 3]), rng.choice([0, 2, 8]), [])
+        elif kind == "twin-singles":
+            # two or three protoclusters with identical extents that stay singles (cores apart, no genes), plus a
+            # neighbour that widens the neighbouring candidate: equal-coordinate singles in the result (D507)
+            a = rng.randrange(10, 50)
+            w = rng.choice([12, 20])
+            k = rng.choice([2, 2, 3])
+            for i in range(k):
+                c0 = a + 2 + 3 * i
+                ps.append(proto(simple(c0 * u, (c0 + 2) * u), area(a * u, (a + w) * u, length, circular), []))
+            q = a + w + rng.choice([-2, -1])
+            add(q, q + 3, rng.choice([0, 2]), [])
+            if rng.random() < 0.4:
+                ps[0] = dict(ps[0], defs=[5])
+                add(a + w + 10, a + w + 12, 0, [5])
         elif kind == "coords-nonmember":
             # a protocluster with exactly the coordinates of a candidate it is not a member of
             a = rng.randrange(10, 40)
@@ -280,7 +303,7 @@ class C05(Property):
             if rng.random() < 0.5:
                 add(b + 1, b + 4, 0, [])
         rng.shuffle(ps)
-        return {"wrap": length if circular else 0, "len": length, "ps": ps}
+        return {"wrap": length if circular else 0, "len": length, "ps": name_products(ps[:len(NAMES)], rng)}
 
     def small_protos(self, circular: bool) -> List[Dict[str, Any]]:
         length = 12
@@ -313,23 +336,25 @@ class C05(Property):
                     if n == 3 and not full and rng.random() > 0.015:
                         continue
                     total += 1
-                    yield {"wrap": wrap, "len": 12, "ps": [protos[i] for i in combo]}
-            for _ in range(20000 if full else 400):
+                    yield {"wrap": wrap, "len": 12, "ps": name_products([protos[i] for i in combo])}
+            for _ in range(3000 if full else 400):
                 combo = sorted(rng.randrange(len(protos)) for _ in range(4))
                 total += 1
-                yield {"wrap": wrap, "len": 12, "ps": [protos[i] for i in combo]}
+                yield {"wrap": wrap, "len": 12, "ps": name_products([protos[i] for i in combo])}
         self.exhaustive_done = full
         self.extra_coverage = {"small_scope_cases": total, "small_scope_record_length": 12,
                                "small_scope_complete_up_to": 3 if full else 2}
 
     def cases(self, rng: random.Random, tier: str, deep: bool) -> Iterator[Dict[str, Any]]:
-        n_random = 30000 if deep else 2200
-        n_directed = 10000 if deep else 1200
+        n_random = 10000 if deep else 2200
+        n_directed = 6000 if deep else 1200
 
-        def with_perms(case: Dict[str, Any]) -> Dict[str, Any]:
+        def with_perms(case: Dict[str, Any], small: bool = False) -> Dict[str, Any]:
             n = len(case["ps"])
-            if deep:
-                case["perms"] = "all" if n <= 4 else 20
+            if small:       # exhaustive family: every pair in both orders, larger ones in a few orders
+                case["perms"] = "all" if n <= 2 else 2
+            elif deep:
+                case["perms"] = "all" if n <= 4 else 10
             else:
                 case["perms"] = "all" if n <= 3 else 6
             return case
@@ -338,7 +363,7 @@ class C05(Property):
         for _ in range(n_random):
             yield with_perms(self.random_case(rng))
         for case in self.small_scope(rng, full=(deep and tier == "thorough")):
-            yield with_perms(case)
+            yield with_perms(case, small=True)
 
     # ------------------------------------------------------------------ implementation adapter
     _cds: Dict[int, Any] = {}
@@ -352,20 +377,20 @@ class C05(Property):
         from antismash.common.secmet.features import Protocluster
         out = []
         for i, p in enumerate(case["ps"]):
-            pc = Protocluster(common.make_location(p["core"]), common.make_location(p["loc"]), "tool", f"p{i}",
-                              10, 10, "rule")
+            pc = Protocluster(common.make_location(p["core"]), common.make_location(p["loc"]), "tool",
+                              p.get("product", f"p{i}"), 10, 10, "rule")
             pc._definition_cdses = {self.gene(g) for g in p["defs"]}  # pylint: disable=protected-access
             out.append(pc)
         return out
 
     @staticmethod
     def canon(cands: List[Any], index: Dict[int, int]) -> List[Any]:
-        out = []
-        for c in cands:
-            out.append([str(c.kind), sorted(index[id(p)] for p in c.protoclusters), common.location_json(c.location),
-                        len(c.protoclusters)])
-        out.sort(key=lambda x: json.dumps(x))
-        return out
+        """candidates in the order returned, members in the order of `candidate.protoclusters`"""
+        return [[str(c.kind), [index[id(p)] for p in c.protoclusters], common.location_json(c.location)] for c in cands]
+
+    @staticmethod
+    def as_set(cands: List[Any]) -> List[str]:
+        return sorted(json.dumps([k, sorted(m), l]) for k, m, l in cands)
 
     def run_once(self, case: Dict[str, Any], order: List[int], via_record: bool = False) -> Any:
         from antismash.common.secmet.features.candidate_cluster.formation import create_candidates_from_protoclusters
@@ -413,7 +438,7 @@ class C05(Property):
                 rec = self.run_once(case, list(range(n)), via_record=True)
             except Exception as exc:  # pylint: disable=broad-except
                 rec = {"err": err_kind(exc), "msg": str(exc)[:200]}
-            if rec != base:
+            if isinstance(rec, dict) or self.as_set(rec) != self.as_set(base):
                 obs.update(record_ok=False, record_out=rec)
             else:
                 obs["record_ok"] = True
@@ -422,7 +447,7 @@ class C05(Property):
     def driver_line(self, case: Dict[str, Any], obs: Dict[str, Any]) -> Optional[Dict[str, Any]]:
         line: Dict[str, Any] = {"wrap": case["wrap"], "ps": case["ps"]}
         if "cands" in obs:
-            line["impl"] = [{"kind": k, "members": m, "loc": l} for k, m, l, _ in obs["cands"]]
+            line["impl"] = [{"kind": k, "members": m, "loc": l} for k, m, l in obs["cands"]]
         return line
 
     def judge(self, case: Dict[str, Any], obs: Dict[str, Any], drv: Optional[Dict[str, Any]]) -> Judgement:
@@ -443,41 +468,39 @@ class C05(Property):
                 detail = f"implementation raised {obs['err']} on well-formed protoclusters: {obs.get('msg')}; " + detail
             return Judgement(corr, spec_ok, in_scope=scope, nontrivial=False, tags=tuple(tags), detail=detail)
         impl = obs["cands"]
-        impl_set = sorted(json.dumps([k, m, l]) for k, m, l, _ in impl)
         if "ok" in model:
-            model_set = sorted(json.dumps([c["kind"], sorted(c["members"]), c["loc"]]) for c in model["ok"])
-            corr = model_set == impl_set and all(len(set(m)) == cnt for _, m, _, cnt in impl) \
-                and all(len(c["members"]) == len(set(c["members"])) for c in model["ok"])
+            # exact: candidates in the returned order, members in `candidate.protoclusters` order
+            corr = [[c["kind"], c["members"], c["loc"]] for c in model["ok"]] == impl
         else:
-            model_set = None
             corr = False
         detail = "" if corr else f"model {model} vs implementation {impl}"
         spec_ok = True
         if scope:
             oi = drv["on_impl"] or {}
             problems = [k for k in ("covers", "members_ok", "locations_ok", "no_dups", "sizes_ok") if not oi.get(k)]
-            problems += ["duplicate member"] if any(len(set(m)) != cnt for _, m, _, cnt in impl) else []
+            problems += ["duplicate member"] if any(len(set(m)) != len(m) for _, m, _ in impl) else []
             spec = drv["spec"]
             if "ok" in spec:
                 want = sorted(json.dumps([e["kind"], sorted(e["members"])]) for e in spec["ok"])
-                have = sorted(json.dumps([k, m]) for k, m, _, _ in impl)
+                have = sorted(json.dumps([k, sorted(m)]) for k, m, _ in impl)
                 if want != have:
                     problems.append(f"kinds/members differ from the documented grouping: expected {want}")
             else:
                 problems.append(f"reference failed: {spec}")
             if not obs.get("perm_ok", True):
-                problems.append(f"order dependence: supplied as {obs['perm']} gives {obs['perm_out']}")
+                problems.append(f"order dependence (candidate order / member order included): supplied as {obs['perm']} "
+                                f"gives {obs['perm_out']}")
             if obs.get("record_ok") is False:
                 problems.append(f"Record.create_candidate_clusters differs: {obs['record_out']}")
             if problems:
                 spec_ok = False
                 detail = "; ".join(problems) + f"; implementation {impl}" + ("; " + detail if detail else "")
-        kinds = sorted({k for k, _, _, _ in impl})
+        kinds = sorted({k for k, _, _ in impl})
         tags += ["kind:" + k for k in kinds]
         if any(len(p["loc"]["parts"]) > 1 for p in case["ps"]):
             tags.append("origin-spanning")
-        singles = {m[0] for k, m, _, _ in impl if k == "single"}
-        strong = {i for k, m, _, _ in impl if k in ("chemical_hybrid", "interleaved") for i in m}
+        singles = {m[0] for k, m, _ in impl if k == "single"}
+        strong = {i for k, m, _ in impl if k in ("chemical_hybrid", "interleaved") for i in m}
         if singles & strong:
             tags.append("promoted-single")
         if "record_ok" in obs:
